@@ -1,30 +1,39 @@
 CFG = dict(
     prop="C11", level="other", harness="c11",
     props_files=["theories/Props/C11.v", "theories/Props/Pem.v"], corr_file="theories/Corr/C11.v", corr_module="Corr.C11",
-    groups={"skip": False, "strmatch": False, "subdiv": False},
-    show_fn={"skip": "model_skip", "strmatch": "model_strmatch", "subdiv": "model_subdiv"},
+    groups={"skip": False, "strmatch": False, "subdiv": False, "bcmatch": False},
+    show_fn={"skip": "model_skip", "strmatch": "model_strmatch", "subdiv": "model_subdiv", "bcmatch": "model_bcmatch"},
     shard=200,
     design_ref="DESIGN.md 6.11",
-    technique="Coq kernel lemmas (gap skipping, keyword matching, block-comment subdivision) + conditional theorem from engine "
+    technique="Coq kernel lemmas (gap skipping, keyword matching, native block-comment matcher, block-comment subdivision) + conditional theorem from engine "
               "non-interference, tied by correspondence; the property itself is explored by differential parsing of perturbed corpus texts",
     level_text="Claimed level: other. The theorem C11_from_engine is conditional on non-interference of the combinator engine, which is "
                "not proved (the engine is not modelled); the technique therefore does not decide C11 on its own. Proved for all inputs: "
                "skip_start_index_forward_to_code / skip_stop_index_backward_to_code read only is_code flags, never cross a code token and "
                "stop on code or the bound; StringParser/MultiStringParser see a token only through is_code and its ASCII-upper-cased raw, "
-               "and re-casing preserves that; block-comment subdivision yields only comment/newline/whitespace kinds; every perturbation "
+               "and re-casing preserves that; block-comment subdivision yields only comment/newline/whitespace kinds; the native block_comment matcher matches a comment of "
+               "the perturbation class (any bytes, no NUL/opener/closer inside) as exactly its own byte length whatever follows; every perturbation "
                "of the property preserves the code view. The property itself is decided by exploration: code-only tree of original vs "
                "perturbed text on the fully parsable corpus.",
     level_note="Trusted: Coq kernel; hand-written model tied by sampled correspondence (skip functions on real token lists, both keyword "
-               "parsers on real tokens x templates, block comments through the real ANSI lexer; ASCII only). Exploration: 13 dialects x "
-               "~1350 fully parsable texts x 11 perturbations x {global, random subset, single position} = ~51k perturbed parses quick. "
+               "parsers on real tokens x templates, block comments incl. multi-byte text and Unicode whitespace through the real ANSI lexer, every dialect's native block_comment "
+               "matcher on comment + following text; keyword parsers ASCII only). Exploration: 13 dialects x "
+               "~1400 fully parsable texts x 15 perturbations x {global, random subset, single position, single position next to an unusual "
+               "token} = ~100k perturbed parses quick; perturbation material (comment bodies, inline comment text, whitespace runs) drawn per "
+               "site from pools with multi-byte characters, stars/slashes, quotes, keywords, CR/CRLF, Unicode spaces, plus a sweep of every "
+               "material x every dialect x every site of two small texts. "
                "Claimed perturbation class for inserted comments: whitespace on both sides (DESIGN 6.11/8); comments abutting a code "
                "token on one side are measured separately and are a recorded known finding (greedy_match keyword-terminator guard).",
     rule="direct: one observation = (dialect, fully parsable text, perturbation, positions): parse original and perturbed with "
          "Linter::parse_string, compare the code-only serialisation (node types over code leaves, keyword raws upper-cased); fail also if "
          "the perturbed text gets unparsable sections or panics. correspondence: skip = the two Rust functions on real lexed token lists "
          "with random (idx, bound) incl. out-of-range; strmatch = StringParser/MultiStringParser::match_segments on real tokens; subdiv = "
-         "ANSI lexer on generated block comments. non-trivial = skip moved / parser matched / comment split in >1 token",
-    assumptions=["inputs of the keyword-parser and subdivision correspondence are ASCII (non-ASCII skipped and counted)",
+         "ANSI lexer on generated block comments (UTF-8); bcmatch = Pattern::matches of each dialect's native block_comment matcher on "
+         "generated comment + tail texts (byte length of the match; a panic fails the blocking monitor "
+         "H_block_comment_matcher_does_not_panic). non-trivial = skip moved / parser matched / comment split in >1 token / matcher matched",
+    assumptions=["inputs of the keyword-parser correspondence are ASCII (non-ASCII skipped and counted)",
+                 "inserted block comment bodies contain no NUL, no '/*' or '*/', do not end in '/' and do not start with '+' or '!' (hints)",
+                 "a text counts as fully covered by its tree modulo the linter's own newline normalisation (CRLF, CR -> LF)",
                  "perturbation positions inside multi-line block comments are excluded (inserting '/* c */' there would end the comment)",
                  "the code-only view treats leaves of type keyword case-insensitively and every other leaf exactly"],
 )
